@@ -248,6 +248,14 @@ func cmdCheck(args []string) {
 		fmt.Println("RENAMED-VARIABLE (contracts follow it):", r)
 	}
 	res := g.runAll(pc.funcRe(), nil, timeout, pc.selects)
+	// a contract whose function no longer exists (removed or renamed method): the behaviour it
+	// pinned down is gone with it
+	for _, mf := range g.missingContractFuncs() {
+		if pc.funcRe().MatchString(mf.fnKey) {
+			res.obls = append(res.obls, &Obligation{Kind: "contract", Func: mf.fnKey, Name: fmt.Sprintf("contract:%s:%s:%d:missing-function", mf.fnKey, mf.file, mf.line),
+				Status: "sat", Note: "the code no longer has the function this contract is written for"})
+		}
+	}
 	broken := false
 	for _, e := range g.ann.errs {
 		fmt.Println("ANNOTATION-ERROR:", e)
